@@ -60,16 +60,20 @@ Definition sorted_hosts (s : state) : list (ip * host) :=
 Definition sorted_keys (s : state) : list ip := map fst (sorted_hosts s).
 
 (* ---------- parsing ---------- *)
+(* own MAC, own IPv4, own LLA, router MAC, router IPv4, LAN base, LAN bits, OfflineDeadline, PurgeDeadline [, ProbeDeadline]
+   (seconds; without the tenth field the probe deadline is the default of 120 s) *)
+Definition cfg_of_fields (om oi ol rm ri lb lbits od pd pr : string) : option cfg :=
+  match mac_of_tok om, ip_of_tok oi, ip_of_tok ol, mac_of_tok rm, ip_of_tok ri,
+        ip_of_tok lb, N_of_dec lbits, Z_of_dec od, Z_of_dec pd, Z_of_dec pr with
+  | Some om, Some oi, Some ol, Some rm, Some ri, Some (IP4 lb), Some lbits, Some od, Some pd, Some pr =>
+      Some {| own_mac := om; own_ip4 := oi; own_lla := ol; rt_mac := rm; rt_ip4 := ri;
+              lan_base := lb; lan_bits := lbits; offline_dl := od; purge_dl := pd; probe_dl := pr |}
+  | _, _, _, _, _, _, _, _, _, _ => None
+  end.
 Definition cfg_of_tok (s : string) : option cfg :=
   match commas s with
-  | [om; oi; ol; rm; ri; lb; lbits; od; pd] =>
-      match mac_of_tok om, ip_of_tok oi, ip_of_tok ol, mac_of_tok rm, ip_of_tok ri,
-            ip_of_tok lb, N_of_dec lbits, Z_of_dec od, Z_of_dec pd with
-      | Some om, Some oi, Some ol, Some rm, Some ri, Some (IP4 lb), Some lbits, Some od, Some pd =>
-          Some {| own_mac := om; own_ip4 := oi; own_lla := ol; rt_mac := rm; rt_ip4 := ri;
-                  lan_base := lb; lan_bits := lbits; offline_dl := od; purge_dl := pd |}
-      | _, _, _, _, _, _, _, _, _ => None
-      end
+  | [om; oi; ol; rm; ri; lb; lbits; od; pd] => cfg_of_fields om oi ol rm ri lb lbits od pd "120"
+  | [om; oi; ol; rm; ri; lb; lbits; od; pd; pr] => cfg_of_fields om oi ol rm ri lb lbits od pd pr
   | _ => None
   end.
 
